@@ -84,7 +84,7 @@ class UGLA(Sampler):
 
         # Gaussian approximation of LMRF prior as function of x_k
         def Lk_fun(x_k):
-            dd =  1/np.sqrt((D @ x_k)**2 + self.beta*np.ones(n))
+            dd =  1/np.sqrt((D @ (x_k - self._priorloc))**2 + self.beta*np.ones(n))
             W = sp.sparse.diags(dd)
             return W.sqrt() @ D
         self.Lk_fun = Lk_fun
@@ -100,7 +100,7 @@ class UGLA(Sampler):
 
         # Initial Laplace approx
         self._L2 = Lk_fun(self.initial_point)
-        self._L2mu = self._L2@self._priorloc
+        self._L2mu = np.sqrt(1/self.prior.scale)*(self._L2@self._priorloc)
         self._b_tild = np.hstack([self._L1@self.data, self._L2mu]) 
         
         # Least squares form
@@ -120,7 +120,7 @@ class UGLA(Sampler):
     def step(self):
         # Update Laplace approximation
         self._L2 = self.Lk_fun(self.current_point)
-        self._L2mu = self._L2@self._priorloc
+        self._L2mu = np.sqrt(1/self.prior.scale)*(self._L2@self._priorloc)
         self._b_tild = np.hstack([self._L1@self.data, self._L2mu]) 
     
         # Sample from approximate posterior
